@@ -37,7 +37,9 @@ import (
 )
 
 func init() {
+	verifC11ChildMain() // the test binary re-executed as a scripted child process: never returns then
 	verifKinds["c11.batch"] = verifC11Batch
+	verifKinds["c11.proc"] = verifC11Proc
 }
 
 // Watchdogs.  They never decide an outcome of the unchanged code (which needs microseconds, or
@@ -62,6 +64,7 @@ type verifC11Ctl struct {
 	*fakeProcess
 	aborts atomic.Int32
 	ends   atomic.Int32
+	clean  bool
 }
 
 func (c *verifC11Ctl) abort() {
@@ -69,7 +72,12 @@ func (c *verifC11Ctl) abort() {
 	c.fakeProcess.abort()
 }
 
+// the process ends by itself: with an error, or cleanly (exit status 0: result() is nil)
 func (c *verifC11Ctl) exit() {
+	if c.clean {
+		c.fakeProcess.stop(nil)
+		return
+	}
 	c.fakeProcess.stop(errors.New("verif: process exited"))
 }
 
@@ -393,7 +401,7 @@ func verifC11TrieCount(tt *testTrie, name string) int {
 	return int(node.matched.Load())
 }
 
-// (refsrv refcli tls) start wfault (resp) dead stderr chunk wait (cases)
+// (refsrv refcli tls [clean]) start wfault (resp) dead stderr chunk wait (cases)
 //
 //	-> ((per name: kind count sideband) returned started asked alive ends (sent) (forwarded))
 func verifC11Batch(args []vsx) vsx {
@@ -406,7 +414,12 @@ func verifC11Batch(args []vsx) vsx {
 	if verifC11Hangs >= 3 {
 		return vErr("skipped-after-three-hangs")
 	}
+	verifC11Prefetch() // the process cases of this run take seconds each: they run meanwhile
+	if len(args[0].l) < 3 || len(args[0].l) > 4 {
+		return vL(vS("bad-case"))
+	}
 	refsrv, refcli, tls := args[0].l[0].boolean(), args[0].l[1].boolean(), args[0].l[2].boolean()
+	clean := len(args[0].l) == 4 && args[0].l[3].boolean()
 	startOK := args[1].boolean()
 	wfault := args[2].i
 	respCode, respParam := args[3].l[0].i, args[3].l[1].i
@@ -503,7 +516,7 @@ func verifC11Batch(args []vsx) vsx {
 			return nil, err
 		}
 		fp := proc.processController.(*fakeProcess) //nolint:forcetypeassert
-		ctl = &verifC11Ctl{fakeProcess: fp}
+		ctl = &verifC11Ctl{fakeProcess: fp, clean: clean}
 		fp.whenDone(func(error) { ctl.ends.Add(1) })
 		proc.processController = ctl
 		in := &verifC11Stdin{inner: proc.stdin, failAt: -1}
